@@ -32,6 +32,15 @@ B32BadCases == \A b \in 0..255 : \A n \in 1..3 : \A p \in 1..n :
                   Emit([fn |-> "b32bad", s |-> [i \in 1..n |-> IF i = p THEN b ELSE Alphabet[((7 * i + b) % 32) + 1]],
                         a |-> <<p>>, out |-> <<IF b \in AlphaSet THEN 0 ELSE 1>>])
 
+\* the same for strings longer than any numeral Base32 produces (13 digits): a foreign byte far from the end is still an error
+B32LongCases == \A b \in 0..255 : \A n \in {13, 14, 15, 20, 30} : \A p \in {1, 2, n - 14, n - 13, n - 12, n} :
+                  (p >= 1 /\ b \notin AlphaSet) =>
+                  Emit([fn |-> "b32bad", s |-> [i \in 1..n |-> IF i = p THEN b ELSE Alphabet[((7 * i + b) % 32) + 1]],
+                        a |-> <<p>>, out |-> <<1>>])
+\* randz.String(n): the package-level generator is shared by all goroutines (locked random source, atomically swapped
+\* generator): g goroutines call it at the same time on a character set of c runes of mixed widths; every result
+\* must still have exactly n runes of the set
+StrConcCases == \A g \in {2, 8} : \A c \in {2, 5, 7} : Emit([fn |-> "strconc", s |-> <<>>, a |-> <<g, c>>, out |-> <<>>])
 \* NewIdGenerator(randBit): <= 1 -> 16, > 22 -> 22
 EffBits(rb) == IF rb <= 1 THEN 16 ELSE IF rb > 22 THEN 22 ELSE rb
 \* the time field has 41 bits whatever randBit is: generators whose start time lies e milliseconds in the past, with e
@@ -82,6 +91,8 @@ CountSane == \A rs \in RuleSets : \A h \in {0, 1, 5} : \A d \in 0..9 :
 
 ASSUME B32Cases
 ASSUME B32BadCases
+ASSUME B32LongCases
+ASSUME StrConcCases
 ASSUME IdLayoutCases
 ASSUME StrGenCases
 ASSUME CountSane
